@@ -1799,6 +1799,12 @@ def _sparse_attr(it, o, attr):
             # scipy returns an np.matrix: (n,1) for axis=1, (1,m) for axis=0
             return CArr(r.data.reshape((-1, 1)) if axis in (1, -1) else r.data.reshape((1, -1)))
         return B(ssum)
+    if attr == 'multiply':
+        # element-wise (Hadamard) product with broadcasting; the result of sparse.multiply(dense) is sparse (coo)
+        def mult(other):
+            od = other.fields['dense'] if isinstance(other, Obj) and other.tag == 'sparse' else (other if is_arr(other) else to_carr(other))
+            return _mk_sparse(A.arr_binop(it.ctx, 'Mult', d, od), 'coo')
+        return B(mult)
     if attr in ('row', 'col', 'data') and o.fields['sparse_format'] == 'coo':
         # COO triplets of the dense-backed model: every position is stored (explicit zeros are legal in scipy), row-major
         n_, m_ = d.shape
